@@ -22,3 +22,5 @@ def rules(ctx):
     S.tracker_state_rules(ctx)
     S.loop_completeness_rules(ctx)
     S.cache_reset_rules(ctx)
+    S.mutator_release_rules(ctx)
+    S.free_verdict_rules(ctx)
